@@ -728,6 +728,7 @@ def run(ctx):
             cases.append((i, ops, rev, obs, t))
         shards.append("\n".join(lines)); meta.append((p, d, cases))
     hist, opstat, total, lens, reverting = {}, {}, 0, [], 0
+    reported, suppressed = set(), {}
     distinct = set()
     samples = []
     if shards:
@@ -752,6 +753,10 @@ def run(ctx):
                        "failing_op": list(map(str, bad)) if bad else None, "logged": [list(map(str, o)) for o in obs], "state": t["state"],
                        "fields": p.names, "how": "write the package from props/c28.py CONTRACT with these field names and the history as a #[test]; run with forc test"}
                 key = "%s_%s" % (opname(bad) if bad else "end", CODES.get(c, c))
+                if key in reported or len(reported) >= 15:      # one replay per (operation kind, judgement); the
+                    suppressed[key] = suppressed.get(key, 0) + 1   # framework prints 20 lines and the tgen break must stay visible
+                    continue
+                reported.add(key)
                 if c in VIOLATION_CODES:
                     ctx.violation(key, rep, "storage collection differs from its list/map/bytes model: %s at operation %d (%s) of the history" % (CODES[c], at, bad))
                 else:
@@ -766,7 +771,7 @@ def run(ctx):
         "rule": "random operation histories (3..%d operations incl. 1-4 raw slot probes) over 10 storage fields of a generated contract (u64 vectors, vectors of 3- and 7-word structs, maps, bytes, string, a struct-typed field whose members straddle slot boundaries), executed in-VM through contract calls; indices mostly in range, sometimes == len / huge; out-of-bounds set/insert/remove/swap/swap_remove only as the last operation of a should_revert test; non-trivial = at least 3 operations; distinct by operation list" % maxlen,
         "samples": samples, "packages": len(pkgs), "package_failures": stats, "judgements_per_operation": hist, "operations": opstat,
         "history_length": {"min": min(lens) if lens else 0, "max": max(lens) if lens else 0, "mean": round(sum(lens) / len(lens), 1) if lens else 0},
-        "reverting_histories": reverting,
+        "reverting_histories": reverting, "further_failing_histories_per_key": suppressed,
         "explanation": "Refinement and frame theorems are about the Coq slot-store model under hypotheses on sha256 (injective and spread on the occurring pre-images); the model is tied to std + fuel-vm by comparing every logged result and raw slot probes; StorageBytes/StorageString are validated only where Props.v says so.",
     })
     ctx.assumptions += ["sha256 is injective on the occurring pre-images and distinct digests are farther apart than any collection's slot range (Section hypotheses of C28/Proofs)",
